@@ -366,7 +366,8 @@ class Tree(object):
         if source is None:
             source = self._ROOT_NODE_NAME
         source_idx = self._node_indices[source]
-        descs = rx.descendants(self._graph, source_idx)
+        # rustworkx returns a set whose iteration order depends on its per-process hash state: fix the order
+        descs = sorted(rx.descendants(self._graph, source_idx))
         return [self._graph[child].node_id for child in descs]
 
     def get_number_of_descendants(self, source=None):
@@ -405,7 +406,9 @@ class Tree(object):
 
         subtree_root_idx = self._node_indices[subtree_root]
 
-        subtree_graph_node_indices = [subtree_root_idx] + list(rx.descendants(self._graph, subtree_root_idx))
+        # sorted: the order of the set returned by rustworkx depends on its per-process hash state, and it decides the
+        # node indices (hence the node order) of the subtree
+        subtree_graph_node_indices = [subtree_root_idx] + sorted(rx.descendants(self._graph, subtree_root_idx))
 
         subtree_graph = self._graph.subgraph(subtree_graph_node_indices, preserve_attrs=True)
 
@@ -479,7 +482,8 @@ class Tree(object):
                     del self._node_indices[node_id]
                     del self._node_indices_rev[curr_idx]
 
-            indices_to_remove = list(rx.descendants(self._graph, sub_root_idx)) + [sub_root_idx]
+            # sorted: the removal order decides which indices are reused first by later additions
+            indices_to_remove = sorted(rx.descendants(self._graph, sub_root_idx)) + [sub_root_idx]
             self._graph.remove_nodes_from(indices_to_remove)
             self._update_path_to_root(parent_node.node_id)
 
